@@ -3,9 +3,9 @@
 package gnet
 
 import (
+	"net"
 	"reflect"
 	"unsafe"
-	"net"
 
 	"github.com/panjf2000/gnet/v2/internal/gfd"
 )
